@@ -183,6 +183,9 @@ LpTransferEv(ev, t) ==
 EvChecks(ev, t) ==
   (CASE ev.ev = "provide" -> ProvideEv(ev, t)
      [] ev.ev = "withdraw" -> WithdrawEv(ev, t)
+     \* the direct withdrawal message: with a cw20 LP token (the default build) nothing is handed in that could be burnt,
+     \* so it must be refused; if it is accepted it is judged as the withdrawal of that many LP tokens by the caller
+     [] ev.ev = "wdirect" -> WithdrawEv(ev, t) \o << <<"C01.withdraw.only-against-LP-tokens", ev.res # "ok">> >>
      [] ev.ev = "swap" -> SwapEv(ev, t)
      [] ev.ev = "collect" -> CollectEv(ev, t)
      [] ev.ev = "setfees" -> SetFeesEv(ev, t)
